@@ -196,6 +196,8 @@ impl MmapXenGrant {
         let n = ceil_pages(size as int);
         assert(n * ps() >= size && n * ps() <= size + ps() - 1 && n >= 0) by (nonlinear_arith)
             requires n == (size + ps() - 1) / ps(), ps() >= 1, size >= 0;
+        assert(ps() * n == n * ps()) by (nonlinear_arith);
+        assert(ps() * n <= usize::MAX);
     }
 //@end
 //@endfn
@@ -248,6 +250,28 @@ impl MmapXenSlice {
 //@spec
     requires old(self).inv(),
     ensures final(self).unix_mmap is None, // [C17,C12] the slice gives up its mapping: nothing is left to be unmapped a second time
+//@end
+//@endfn
+}
+
+// ------------------------------------------------------------------ MmapXen::mmap: where every guard gets its window
+/// the flavour behind a region (`Box<dyn MmapXenTrait>` in the source; a type parameter here - dynamic
+/// dispatch is outside Verus): a window that is granted covers the access and is live
+pub trait MmapXenTrait {
+    fn mmap_slice(&self, addr: Ptr, prot: i32, len: usize) -> (r: Result<MmapXenSlice>)
+        ensures r matches Ok(s) ==> s.inv() && s.addr.wf() && s.addr.valid_for(len as int) && s.addr.live@;
+}
+pub struct MmapXen<M: MmapXenTrait> { pub mmap: M }
+impl<M: MmapXenTrait> MmapXen<M> {
+//@fn src/mmap/xen.rs :: impl MmapXen\b :: mmap :: tags=C17,C07 unwraps=guard
+//@sub Option<&Self> => Option<&MmapXen<M>>
+//@spec
+    ensures
+        // an on-demand region (mapping info present): the access gets a live window covering it, or the
+        // call does not return (a refused window is a panic BEFORE the access, never an access without one)
+        mmap_xen is Some ==> r.inv() && r.addr.wf() && r.addr.valid_for(len as int) && r.addr.live@, // [C17]
+        // memory mapped in advance: the address is used as it is
+        mmap_xen is None ==> r.addr == addr && r.unix_mmap is None, // [C17]
 //@end
 //@endfn
 }
